@@ -10,6 +10,13 @@ use super::*;
 pub static mut STORE_CALLS: usize = 0;
 pub static mut STORE_UNDER_MUTEX: bool = true;
 pub static mut STORE_ON: [usize; 4] = [0; 4]; // address of the HalfLock each store went to
+pub static mut OUTER_MUTEX: *const Mutex<()> = std::ptr::null(); // the registry's data lock (set by a harness)
+pub static mut OUTER_HELD_AT_STORE: [bool; 4] = [false; 4];
+pub fn set_outer<T>(hl: &HalfLock<T>) {
+    unsafe {
+        OUTER_MUTEX = &hl.write_mutex as *const Mutex<()>;
+    }
+}
 
 pub fn store_contract<'a, T: 'a>(g: &mut WriteGuard<'a, T>, val: T) {
     let new = Box::into_raw(Box::new(val));
@@ -19,6 +26,9 @@ pub fn store_contract<'a, T: 'a>(g: &mut WriteGuard<'a, T>, val: T) {
         *cell = new;
         if STORE_CALLS < 4 {
             STORE_ON[STORE_CALLS] = g.lock as *const HalfLock<T> as usize;
+            if !OUTER_MUTEX.is_null() {
+                OUTER_HELD_AT_STORE[STORE_CALLS] = (*OUTER_MUTEX).try_lock().is_err();
+            }
         }
         STORE_CALLS += 1;
         if g.lock.write_mutex.try_lock().is_ok() {
